@@ -297,8 +297,12 @@ func engineFor(prop string, t *testing.T) Engine {
 		return seqEngine{}
 	case "C16":
 		return multiEngine{engines: map[string]Engine{"seq": seqEngine{}, "xfs": xfsEngine{"C16"}}, order: []string{"seq", "xfs"}, weights: []int{5, 1}}
-	case "C03", "C04", "C09":
+	case "C03":
 		return crashEngine{}
+	case "C09":
+		return multiEngine{engines: map[string]Engine{"crash": crashEngine{}, "compact-closed": compactEngine{t: t, closed: true}}, order: []string{"crash", "compact-closed"}, weights: []int{3, 1}}
+	case "C04":
+		return multiEngine{engines: map[string]Engine{"crash": crashEngine{}, "compact": compactEngine{t: t, afterRecovery: true}}, order: []string{"crash", "compact"}, weights: []int{4, 1}}
 	case "C08", "C19":
 		return damageEngine{}
 	}
